@@ -34,6 +34,8 @@ def extract_writechar():
 
 def prepare(tier):
     extract_writechar()
+    from groups import C01 as _c01
+    _c01.extract_writeone()
 
 
 def replay_write(spec, inputs, workdir):
@@ -61,6 +63,23 @@ int main(void){ unsigned char b[8]={0}; int c=%d; int n=sexp_utf8_char_byte_coun
     rc, o = native.run_driver(workdir, "replay_decode", code, include_c=["sexp.c"])
     return rc == 1, o
 
+def replay_wstring(spec, inputs, workdir):
+    b = int(inputs.get("in_b", "0"))
+    code = r"""
+#include "chibi/eval.h"
+int main(void){ sexp ctx = sexp_make_eval_context(NULL, NULL, NULL, 0, 0);
+  char buf[2] = {(char)%d, 0};
+  sexp str = sexp_c_string(ctx, buf, 1);
+  sexp s = sexp_write_to_string(ctx, str);
+  sexp r = sexp_read_from_string(ctx, sexp_string_data(s), -1);
+  int ok = sexp_stringp(r) && sexp_string_size(r) == 1 && (unsigned char)sexp_string_data(r)[0] == %d;
+  printf("(write (string (integer->char %d))) => %%s ; read back: %%s\n", sexp_string_data(s), ok ? "the same string" : "a different datum");
+  return ok ? 0 : 1; }
+""" % (b, b, b)
+    rc, o = native.run_driver(workdir, "replay_wstring", code)
+    return rc == 1, o
+
+
 GROUPS = [
  {"name": "decode_literal", "label": "proved", "harness": "harness/C08/charcodec.c", "entry": "h_decode_literal",
   "functions": ["sexp.c:sexp_decode_utf8_char", "sexp.c:sexp_utf8_char_byte_count", "sexp.c:sexp_utf8_encode_char"],
@@ -79,6 +98,15 @@ GROUPS = [
   "assumptions": ["the block is cut out of sexp_write_one mechanically; sexp_write_char / sexp_write_string are recording stubs (port layer not covered)",
                   "the reader's rule for #\\ literals (sexp_read_raw: one character / x + hex digits via sexp_read_number / name table) is restated in the harness as the specification; the reader itself is covered by decode_literal and C04 read_number_digits only"],
   "instances": [{"name": "all_scalars"}]},
+ {"name": "write_string_escape", "label": "proved", "harness": "harness/C08/writestring.c", "entry": "h_write_string",
+  "flags": ["-I@BUILD@/shim_small", "-I@BUILD@/C01/writeone", "-I" + core.REPO],
+  "functions": ["sexp.c:sexp_write_one (string branch: escape of one byte)", "sexp.c:hex_digit"],
+  "unwind": 10, "min_obligations": 6, "timeout": 300, "mem_gb": 4, "replay": replay_wstring,
+  "bound": "none for the byte (all 256 values); a one-byte string is the inductive step for any length because the loop body reads only the current byte",
+  "assumptions": ["verified text: per-run copy of sexp.c with the self-calls of sexp_write_one redirected (groups/C01.py:extract_writeone); sexp_write_char / sexp_write_string are recording stubs",
+                  "the reader's escape rule for string literals is restated in the harness as the specification (sexp_read_string itself is not under contract)",
+                  "independence of loop iterations (the body reads str[0] only) is by inspection, not a discharged obligation"],
+  "instances": [{"name": "any_byte"}]},
 ]
 META = {
  "not_covered": ["number and float text (libc snprintf/strtod decide it)", "datum labels, lists, vectors, bytevectors (sexp_write_one / sexp_read_raw are 400-line port-driven functions outside the verifier's reach)",
